@@ -8,7 +8,10 @@
 //   * wherever the parent would sleep (blocking waitpid with a live child, poll with a non-zero timeout and nothing
 //     ready) and at every non-blocking read/write of run_process (which names EINTR explicitly): the call is
 //     interrupted by a signal and fails with EINTR (default: no signal; at most 2 per call).
-// Every choice sequence with at most `bound` non-default answers is executed (C15_explore.hh).  Time is virtual.
+// Every choice sequence with at most `bound` non-default answers is executed (C15_explore.hh).  Time is virtual: each
+// wrapped system call costs 1 us, a sleeping poll its timeout, and a parent that spins (identical poll rounds that return
+// at once, nothing done in between, child unable to move) is fast-forwarded to the expiry of its timeout and beyond.
+// A further environment dimension (round 3): the caller's own descriptors 0/1/2, any subset closed.
 // One scenario is a HISTORY of one to five calls made in the same process, each with its own scripted child.
 #include "C15_proc.hh"
 #include "C15_explore.hh"
@@ -93,8 +96,31 @@ std::vector<Scenario> scenarios(bool thorough) {
   // timeouts
   run("run: child hangs, timeout 2.5 s", true, 3, {{ST_W1, 9}, {ST_Z, 0}}, false, 2500000, 2, 3, false, -1);
   run("run: child hangs, timeout 1 us", false, 0, {{ST_W1, 9}, {ST_Z, 0}}, false, 1, 2, 3, false, -1);
-  // (not enumerated: a child that closes stdout/stderr and then hangs under a timeout — run_process spins on POLLHUP
-  // without sleeping until the timeout expires; real time passes, virtual time does not, see notes)
+  // Round 3: children that close their output streams and then exit / hang past the timeout / ignore SIGTERM and hang.
+  // On HEAD run_process spins on POLLHUP without sleeping; the time model fast-forwards a spinning parent whose child
+  // cannot move (C15_proc.hh), so "a timeout ends the child" is decided for these children too.
+  for (int closes : {3, 1, 2})           // bit 0: stdout, bit 1: stderr
+    for (int after : {0, 1, 2})          // 0 lingers then exits 3; 1 hangs; 2 ignores SIGTERM and hangs
+      for (int in : {0, 1, 2}) {         // 0 no stdin; 1 payload 5000 read to EOF before the streams are closed; 2 payload 3 never read
+        if (in == 2 && !(closes == 3 || thorough)) continue;
+        std::vector<Step> sc;
+        if (after == 2) sc.push_back({ST_I, SIGTERM});
+        sc.push_back({ST_W1, 10});
+        sc.push_back({ST_W2, 7});
+        if (in == 1) sc.push_back({ST_RALL, 0});
+        if (closes & 1) sc.push_back({ST_C, 1});
+        if (closes & 2) sc.push_back({ST_C, 2});
+        if (after == 0) { sc.push_back({ST_P, 0}); sc.push_back({ST_P, 0}); sc.push_back({ST_X, 3}); }
+        else sc.push_back({ST_Z, 0});
+        const char* cn = closes == 3 ? "stdout and stderr" : closes == 1 ? "stdout" : "stderr";
+        const char* an = after == 0 ? "lingers, exits 3" : after == 1 ? "hangs past the timeout" : "ignores SIGTERM and hangs past the timeout (SIGKILL follows)";
+        const char* in_n = in == 0 ? "no stdin" : in == 1 ? "payload 5000 read first" : "payload 3 never read";
+        for (uint64_t t : {(uint64_t)2500000, (uint64_t)0, (uint64_t)700}) {
+          if (t == 0 && (after != 0 || !thorough)) continue;  // a child that hangs needs a timeout; exits without one: round-2 scenarios, thorough
+          if (t == 700 && !(after == 1 && in != 2)) continue;  // a timeout below one poll interval
+          run(vf::fmt("run: child closes %s, then %s; %s; timeout %llu us", cn, an, in_n, (unsigned long long)t), in != 0, in == 1 ? 5000 : in == 2 ? 3 : 0, sc, false, t, after == 0 ? 1 : 2, after == 0 ? 2 : 3, in == 1, after == 0 ? W(3) : -1);
+        }
+      }
   run("run: child ignores SIGTERM and hangs, timeout 2.5 s (SIGKILL follows)", false, 0, {{ST_I, SIGTERM}, {ST_W1, 9}, {ST_Z, 0}}, false, 2500000, 2, 3, false, -1);
   run("run: child finishes well inside a timeout", true, 3, {{ST_RALL, 0}, {ST_W1, 9}, {ST_X, 0}}, false, 30000000, 2, 3, true, 0);
   for (uint64_t t : {(uint64_t)1, K31 - 1, K31, K32 - 1, K32, K63 - 1, K63, UINT64_MAX - 1, UINT64_MAX})
@@ -157,6 +183,24 @@ std::vector<Scenario> scenarios(bool thorough) {
   comm("comm: inside a catch handler", 10, {{ST_RALL, 0}, {ST_W1, 10}, {ST_X, 1}}, 0, 1, 2, true, W(1), 0, CTX_IN_CATCH);
   comm("comm: in a destructor during unwinding, child lingers after closing stdout", 10, {{ST_RALL, 0}, {ST_W1, 10}, {ST_C, 1}, {ST_P, 0}, {ST_X, 1}}, 0, 1, 2, true, W(1), 0, CTX_UNWINDING);
 
+  // ================= Round 3: the caller's own descriptors 0/1/2 are closed (daemon, `prog <&-`) =================
+  // The pipes the Subprocess constructor creates then get the numbers 0..2 themselves.  Every non-empty subset.
+  for (int mask = 1; mask < 8; mask++) {
+    std::string mn = std::string("caller's fds {") + (mask & 1 ? "0" : "") + (mask & 2 ? "1" : "") + (mask & 4 ? "2" : "") + "} closed";
+    auto closed = [&](Call c) { c.closed_fds = mask; return c; };
+    one("run: " + mn + ", payload 3, read-all-then-write", closed(mk(API_RUN, true, 3, {{ST_RALL, 0}, {ST_W1, 5}, {ST_W2, 3}, {ST_X, 7}}, false, 0, true, W(7))), 1, 2);
+    one("run: " + mn + ", no stdin, write both streams", closed(mk(API_RUN, false, 0, {{ST_W1, 6000}, {ST_W2, 100}, {ST_X, 0}}, true, 0, false, 0)), 1, 2);
+    one("run: " + mn + ", payload 70000, echo 70000", closed(mk(API_RUN, true, 70000, {{ST_RALL, 0}, {ST_W1, 70000}, {ST_W2, 10}, {ST_X, 1}}, false, 0, true, W(1))), 1, 1);
+    one("comm: " + mn + ", cat-like echo of 10 bytes", closed(mk(API_COMM, true, 10, {{ST_RALL, 0}, {ST_W1, 10}, {ST_W2, 4}, {ST_X, 0}}, false, 0, true, 0)), 1, 2);
+    one("comm: " + mn + ", empty payload, (ptr,len) overload, deadline 5 s", closed(mk(API_COMM, true, 0, {{ST_RALL, 0}, {ST_W1, 5000}, {ST_X, 2}}, false, 5000000, true, W(2), V_PTRLEN)), 1, 2);
+    if (mask == 1 || mask == 7 || thorough) {
+      one("comm: " + mn + ", echo of 65537 bytes, deadline 5 s", closed(mk(API_COMM, true, 65537, {{ST_R, 65536}, {ST_W1, 65536}, {ST_RALL, 0}, {ST_W1, 1}, {ST_X, 9}}, false, 5000000, true, W(9))), 1, 1);
+      one("run: " + mn + ", child hangs, timeout 2.5 s", closed(mk(API_RUN, true, 3, {{ST_W1, 9}, {ST_Z, 0}}, false, 2500000, false, -1)), 1, 2);
+      one("life: " + mn + ", destroy while the child hangs", closed(life(life_destroy_running, "{ Subprocess sp(cmd); }", {{ST_W1, 5}, {ST_Z, 0}})), 1, 2);
+      one("life: " + mn + ", move-construct, destroy the source, communicate, wait", closed(life(life_move_ctor, "Subprocess b(std::move(a)); ~a; b.communicate(); b.wait()", {{ST_RALL, 0}, {ST_W1, 20}, {ST_X, 4}}, 10)), 1, 2);
+    }
+  }
+
   // ================= Subprocess life cycle =================
   one("life: default-constructed object created and destroyed", life(life_default_only, "Subprocess(); ~Subprocess()", {}), 0, 0);
   one("life: destroy while the child hangs (no wait)", life(life_destroy_running, "{ Subprocess sp(cmd); }", {{ST_W1, 5}, {ST_Z, 0}}), 2, 3);
@@ -209,6 +253,16 @@ std::vector<Scenario> scenarios(bool thorough) {
   v.push_back({"hist: comm small, run small, comm small", {c_small, r_small, c_small}, 2, 2});
   v.push_back({"hist: run large, comm large, run small", {r_large, c_large, r_small}, 1, 1});
   v.push_back({"hist: destroy a hanging child, run small, destroy a hanging child", {l_destroy, r_small, l_destroy}, 2, 2});
+  {
+    // Round 3 histories: the descriptor table of the caller changes between calls; a spinning call is followed by others
+    Call r_small_no0 = r_small, r_small_none = r_small, c_small_no01 = c_small;
+    r_small_no0.closed_fds = 1; r_small_none.closed_fds = 7; c_small_no01.closed_fds = 3;
+    Call r_closed_hang = mk(API_RUN, false, 0, {{ST_W1, 10}, {ST_C, 1}, {ST_C, 2}, {ST_Z, 0}}, false, 2500000, false, -1);
+    v.push_back({"hist: run small with fd 0 closed x3 (descriptor table identical after every call)", {r_small_no0, r_small_no0, r_small_no0}, 1, 1});
+    v.push_back({"hist: run small, run small with fds 0-2 closed, run small", {r_small, r_small_none, r_small}, 1, 2});
+    v.push_back({"hist: comm small with fds 0,1 closed, run small with fd 0 closed, comm small", {c_small_no01, r_small_no0, c_small}, 1, 2});
+    v.push_back({"hist: run child closes both streams and hangs (timeout), run small, the same again", {r_closed_hang, r_small, r_closed_hang}, 1, 2});
+  }
   return v;
 }
 
